@@ -1,5 +1,6 @@
-"""Universal mux-boundary monitor (C03): a protocol automaton on every MuxObservable that any
-rx.pipe composition produces, installed by patching rx.pipe in the checker process only."""
+"""Universal mux-boundary monitor (C03): a protocol automaton on every MuxObservable - on those that an rx.pipe composition
+produces (named after the operator) and on every one the library constructs at all (MuxObservable.__init__), so that
+boundaries stay visible however operators are composed.  Installed in the checker process only."""
 import sys
 
 import rx
@@ -77,6 +78,60 @@ class Monitor(object):
 MON = Monitor()
 
 
+_BYPASS = False
+_ORIG_INIT = None
+
+
+class _Spy(object):
+    """Pass-through observer feeding the protocol automaton of one subscription (duck-typed: the operators only call
+    on_next / on_error / on_completed; nothing is swallowed after termination, so late events stay visible)."""
+    __slots__ = ('b', 'inner', 'stopped')
+
+    def __init__(self, b, inner):
+        self.b, self.inner, self.stopped = b, inner, False
+
+    # The observer an operator is handed by RxPY stops listening after the first on_completed / on_error (auto-detach), so a
+    # subscriber never sees what an operator calls after that (tee_map calls on_completed once per branch).  The automaton is
+    # fed what the subscriber gets; events after termination are judged on the pipe-level boundaries, behind that filter.
+    def on_next(self, i):
+        if not self.stopped:
+            MON.event(self.b, i)
+        self.inner.on_next(i)
+
+    def on_error(self, e):
+        if not self.stopped:
+            self.stopped = True
+            MON.errored(self.b)
+        self.inner.on_error(e)
+
+    def on_completed(self):
+        if not self.stopped:
+            self.stopped = True
+            MON.completed(self.b)
+        self.inner.on_completed()
+
+
+def _monitored_init(self, subscribe=None):
+    """Every MuxObservable the library constructs is a boundary, however the operators were composed (rx.pipe, a loop,
+    nested calls): its subscribe function gets a spy in front of the observer it is given."""
+    if _BYPASS or subscribe is None:
+        return _ORIG_INIT(self, subscribe)
+    name = 'new:' + getattr(subscribe, '__qualname__', repr(subscribe))
+
+    def monitored(observer, scheduler=None):
+        return subscribe(_Spy(MON.new_boundary(name), observer), scheduler)
+    return _ORIG_INIT(self, monitored)
+
+
+def _plain_mux(on_subscribe):
+    global _BYPASS
+    _BYPASS = True
+    try:
+        return rs.MuxObservable(on_subscribe)
+    finally:
+        _BYPASS = False
+
+
 def _wrap(source, name):
     def on_subscribe(observer, scheduler):
         b = MON.new_boundary(name)      # one automaton per subscription of the boundary
@@ -93,7 +148,7 @@ def _wrap(source, name):
             MON.errored(b)
             observer.on_error(e)
         return source.subscribe(on_next=on_next, on_completed=on_completed, on_error=on_error, scheduler=scheduler)
-    return rs.MuxObservable(on_subscribe)
+    return _plain_mux(on_subscribe)
 
 
 def _monitored_pipe(*operators):
@@ -110,7 +165,10 @@ _ORIG = None
 
 
 def install():
-    global _ORIG
+    global _ORIG, _ORIG_INIT
+    if _ORIG_INIT is None:
+        _ORIG_INIT = rs.MuxObservable.__init__
+        rs.MuxObservable.__init__ = _monitored_init
     if _ORIG is None:
         _ORIG = rx.pipe
         rx.pipe = _monitored_pipe
@@ -119,7 +177,10 @@ def install():
 
 
 def uninstall():
-    global _ORIG
+    global _ORIG, _ORIG_INIT
+    if _ORIG_INIT is not None:
+        rs.MuxObservable.__init__ = _ORIG_INIT
+        _ORIG_INIT = None
     if _ORIG is not None:
         rx.pipe = _ORIG
         sys.modules['rx.core.pipe'].pipe = _ORIG
